@@ -1,3 +1,4 @@
+pub mod exact;
 pub mod gen_msg;
 pub mod gz;
 pub mod lp;
